@@ -482,6 +482,21 @@ class Array:
     def __rshift__(self, other):
         return ndx.bitwise_right_shift(self, other)
 
+    def __rand__(self, other):
+        return ndx.bitwise_and(other, self)
+
+    def __ror__(self, other):
+        return ndx.bitwise_or(other, self)
+
+    def __rxor__(self, other):
+        return ndx.bitwise_xor(other, self)
+
+    def __rlshift__(self, other):
+        return ndx.bitwise_left_shift(other, self)
+
+    def __rrshift__(self, other):
+        return ndx.bitwise_right_shift(other, self)
+
     def __eq__(self, other):
         if isinstance(other, type(Ellipsis)):
             # FIXME: What is going on here? Deserves a comment, IMHO
